@@ -260,6 +260,12 @@ impl Case for C01Case {
                 });
                 break;
             }
+            if !line.is_empty() && line.iter().all(|s| matches!(s, Stmt::Data(_))) {
+                // DATA typed as a direct statement: what it answers is not settled by the manual
+                // (only that it must not become part of the program's DATA, which later lines show)
+                v.stats.bump("c01.direct_data_not_judged");
+                continue;
+            }
             if got != *exp {
                 fail = Some(Violation {
                     key: format!("{}:{}", self.prop, classify(exp, &got)),
